@@ -174,7 +174,7 @@ class C10(Check):
                    "D6 guard: the list became longer than at any time since the aliases were taken (any such step may re-allocate it); independent of the capacity policy"]
 
     def gen(self, tier):
-        L_ = 3 if tier == "thorough" else 2
+        L_ = 4 if tier == "thorough" else 2
         aliases = list(ALIASES)
         for infn in (False, True):
             for init in ([1, 2, 3], [1, 2, 3, 4], [1, 2, 3, 4, 5], [1, 2, 3, 4, 5, 6, 7, 8]):
@@ -191,7 +191,7 @@ class C10(Check):
             for kind, OPS in (("map", MAP_OPS), ("inst", INST_OPS)):
                 for n in range(0, L_ + 1):
                     for ops in itertools.product(OPS, repeat=n):
-                        for al in itertools.product(aliases, repeat=n):
+                        for al in (itertools.product(aliases, repeat=n) if n <= 3 else [tuple(aliases[(i + j) % 4] for j in range(n)) for i in range(4)]):
                             yield (kind, (), tuple(zip(ops, al)), infn)
         for size in KEY_SIZES:
             for k1 in range(len(KEYS)):
@@ -243,7 +243,7 @@ class C10(Check):
 def main(tier):
     t0 = time.time()
     chk = C10()
-    chk.rule = ("subjects: lists of length 3/4/5/8, a map, an instance; all sequences of <= L operations (L=2 quick, 3 thorough) from 7 list / 4 map / 2 instance operations, each through "
+    chk.rule = ("subjects: lists of length 3/4/5/8, a map, an instance; all sequences of <= L operations (L=2 quick, 4 thorough; alias choices rotated instead of multiplied out beyond 2 (lists) / 3 (map, instance) operations) from 7 list / 4 map / 2 instance operations, each through "
                 "every one of 4 aliases (L=3: 4 alias rotations), at module level and inside a function; 5 observation lines after every step (identity through 7 aliases, keyed lookups, "
                 "has/index in list and tuple containers, contents) and once more after the keyed map was grown. non-trivial = history with at least one operation")
     merged = explore(chk, tier, cap_s=(1500 if tier == "thorough" else 200))
